@@ -186,9 +186,20 @@ def correspondence(ctx):
     tri = _angle_triples(ctx.rng, n)
     # out-of-range angles exercise the ValueError paths of from_rpy
     tri_bad = [[7.0, 0.1, 0.2], [0.1, -6.5, 0.2], [0.0, 0.0, 6.3]]
+    # the composed map angles -> q -> angles is ill-conditioned near the gimbal: asin and atan2 amplify the ~1 ulp difference
+    # between NumPy's norm / ** 2 and the model's sums by 1/cos(pitch) (up to 1e6 in the domain): those cases get an absolute
+    # tolerance of 1e-9/cos(pitch) <= 1e-3 * (distance to the gimbal)... i.e. 1e-7 at worst; generic cases keep the ulp rule
+    near = lambda a: HP - abs(a[1]) < 1e-2
     for name in ('rpy_Q', 'rpy_QA', 'rpy_O', 'rpy_q'):
-        cases = [cm.d(RPY, a) for a in tri + (tri_bad if name in ('rpy_Q', 'rpy_q') else [])]
-        ctx.correspond(f'C10_{name}', cases, (lambda c, f=I[name]: f([c[k] for k in RPY])), tol_ulp=4096)
+        f = I[name]
+        extra = tri_bad if name in ('rpy_Q', 'rpy_q') else []
+        if name == 'rpy_q':
+            ctx.correspond(f'C10_{name}', [cm.d(RPY, a) for a in tri + extra], (lambda c, f=f: f([c[k] for k in RPY])), tol_ulp=4096)
+            continue
+        ctx.correspond(f'C10_{name}', [cm.d(RPY, a) for a in tri + extra if not near(a)], (lambda c, f=f: f([c[k] for k in RPY])),
+                       tol_ulp=4096)
+        ctx.correspond(f'C10_{name}', [cm.d(RPY, a) for a in tri if near(a)], (lambda c, f=f: f([c[k] for k in RPY])),
+                       tol_ulp=4096, abs_tol=1e-7, label=f'C10_{name}/near-gimbal')
     axs = _axes(ctx.rng, n)
     ths = _rot_angles(ctx.rng, n)
     aa = [{**cm.d(AX, axs[i % len(axs)]), 'th': ths[(3 * i + 1) % len(ths)]} for i in range(max(len(axs), len(ths)))]
